@@ -399,6 +399,17 @@ func (fr *Frame) applyContract(con *Contract, tgt callTarget, args [][]string, a
 		if lab == "" {
 			lab = fmt.Sprintf("%d", i)
 		}
+		if strings.HasPrefix(c.Label, "deferred") {
+			// a fact about the fixed satisfying assignment (soundness mode) that constraints emitted later in
+			// the same function may establish: proved at every return of the function under verification
+			top := fr
+			for top.parent != nil {
+				top = top.parent
+			}
+			top.deferredPre = append(top.deferredPre, deferredPre{goal: g, reach: r, pos: fr.pos(pos), props: fr.propsFor(c.Props),
+				text: "precondition of " + short + " (to hold when the function returns): " + c.Text + "  at " + fr.srcLine(pos), name: "pre-deferred(" + short + ")" + fr.suffix})
+			continue
+		}
 		vc.oblig("pre("+short+")"+fr.suffix, "", r, g, fr.pos(pos), fr.propsFor(c.Props), "precondition of "+short+": "+c.Text+"  at "+fr.srcLine(pos))
 	}
 	// gadget mode: constraint clauses are obligations in completeness mode
@@ -513,6 +524,15 @@ func (fr *Frame) havocTarget(env *Env, e Expr, st *State) error {
 			v, err := env.eval(x.X)
 			if err != nil {
 				return err
+			}
+			if isIfaceT(v.T) {
+				// the object behind an interface value: opaque to the typed memory (its abstract state, if any,
+				// is ghost state named separately); the frame check accounts for the write
+				return nil
+			}
+			if _, isMap := v.T.Underlying().(*types.Map); isMap {
+				fr.vc.unmodelled["assigns *m for a map m: map contents are not tracked across this call"] = true
+				return nil
 			}
 			et, ok := deref(v.T)
 			if !ok {
